@@ -309,7 +309,7 @@ def _main(a, seed, t_start):
         if r.get('replay') is not None:
             info = r['replay']           # unit supplied its own native replay (lemmas, ground tables)
         elif contract is not None and r.get('model'):
-            info = replay.confirm(contract, r['model'])
+            info = replay.confirm(contract, r['model'], frame=r['name'].endswith('#modifies-nothing'))
         failing = None
         if info.get('confirmed'):
             failing = info
@@ -373,7 +373,18 @@ def _main(a, seed, t_start):
             violations.append((fname, True, {'name': name + '#bounded', 'detail': 'contract violated at run time'}))
 
     # ---- extra per-property checks (self-tests, TZ children ...)
-    extra = spec.extra(a.tier, rng) if spec.extra else {}
+    extras = [spec.extra(a.tier, rng)] if (spec.extra and not a.only) else []
+    from props import bounded as _bounded
+    if any(prop in ps for ps in _bounded.SESSION_KINDS.values()) and not a.only:
+        extras.append(_bounded.session_history(prop, a.tier, rng))     # the history clause: every call as in a fresh interpreter
+    extra = {'violations': [], 'coverage': {}}
+    for e in extras:
+        extra['violations'] += e.get('violations', [])
+        for k, v in e.get('coverage', {}).items():
+            if isinstance(v, list):
+                extra['coverage'][k] = extra['coverage'].get(k, []) + v
+            else:
+                extra['coverage'][k] = v
     for v in extra.get('violations', []):
         violations.append(v)
 
